@@ -38,7 +38,7 @@ PairNext(r) ==
       or == RedbStep(s.r, r, K)
       f  == Tag("mem", StoreViol(r, om.resp, MemObs(s.m), MemObs(om.s)))
             \cup Tag("redb", StoreViol(r, or.resp, RedbObs(s.r), RedbObs(or.s)))
-            \cup Tag("diff", DiffViol(r, om.resp, or.resp, MemObs(om.s), RedbObs(or.s)))
+            \cup Tag("diff", DiffViol(r, om.resp, or.resp, MemObs(s.m), RedbObs(s.r), MemObs(om.s), RedbObs(or.s)))
   IN /\ s' = [m |-> om.s, r |-> or.s]
      /\ g' = [g EXCEPT !.flags = @ \cup (f \ Ignore)]
      /\ last' = [req |-> r, m |-> om.resp.c, r |-> or.resp.c, new |-> f]
